@@ -164,12 +164,36 @@ def run_impl(t, universe, ptr, chain, lit, script):
     operations, new_storage, lazy_diff, stdout, error = res
     if error is not None:
         return f'run_code failed: {error}'[:300], src
-    return (new_storage, lazy_diff, shell.log), src
+    return (new_storage, lazy_diff, shell.log, merged_view(t, universe, table, new_storage, lazy_diff)), src
+
+
+def merged_view(t, universe, table, new_storage, lazy_diff):
+    """pytezos' own application of a diff: BigMapType(id).merge_lazy_diff(lazy_diff) over the on-chain content,
+    then GET of every key of the universe. Returns {canon key: value|None} or a failure string."""
+    from pytezos.context.impl import ExecutionContext
+    from pytezos.michelson.parse import michelson_to_micheline
+    from pytezos.michelson.types.base import MichelsonType
+
+    def go():
+        ty = MichelsonType.match(michelson_to_micheline(f'big_map {V.type_src(t)} int'))
+        new_id = int(new_storage['args'][0]['int'])
+        # the node after the operation would serve the old entries under the (possibly new) id
+        tbl = {(new_id, kh): v for (_, kh), v in table.items()}
+        bm = ty.from_micheline_value({'int': str(new_id)})
+        bm.attach_context(ExecutionContext(shell=StubShell(tbl), block_id='head'))
+        merged = bm.merge_lazy_diff(lazy_diff)
+        out = {}
+        for k in universe:
+            val = merged.get(ty.args[0].from_micheline_value(V.value_micheline(k)), dup=False)
+            out[V.value_src(k)] = None if val is None else int(val)
+        return out
+    ok, r = lib.call(go)
+    return r if ok else f'merge_lazy_diff/get raised {type(r).__name__}: {r}'[:200]
 
 
 def decode_impl(t, universe, script, res):
     """observations + diff in harness terms, or a string when the output has an unexpected shape."""
-    new_storage, lazy_diff, log = res
+    new_storage, lazy_diff, log, merged = res
     uni = {json.dumps(V.value_micheline(v), sort_keys=True): v for v in universe}
     try:
         args = new_storage['args']
@@ -201,7 +225,7 @@ def decode_impl(t, universe, script, res):
                 seen_removed = True
                 removed.append((key, u['key_hash']))
         return {'obs': obs, 'items': items, 'removed': removed, 'action': d['diff']['action'], 'id': int(d['id']),
-                'has_types': 'key_type' in d['diff']}
+                'has_types': 'key_type' in d['diff'], 'merged': merged}
     except (KeyError, AssertionError, ValueError, TypeError, StopIteration, IndexError) as e:
         return f'unexpected output shape ({type(e).__name__}: {e})'
 
@@ -247,6 +271,9 @@ def oracle(t, universe, ptr, chain, lit, script, out):
     want_store = {script_expr(k): z for k, z in final.values()}
     if store != want_store:
         return 'the lazy diff applied to the on-chain content does not give the final dictionary'
+    want_view = {V.value_src(k): (final[V.canon(k)][1] if V.canon(k) in final else None) for k in universe}
+    if out['merged'] != want_view:
+        return f'merge_lazy_diff of the emitted diff over the on-chain big_map answers GET with {out["merged"]}, the final dictionary is {want_view}'
     if ptr is not None and (out['action'] != 'update' or out['id'] != ptr):
         return f'diff of an existing big_map has action {out["action"]} / id {out["id"]}'
     if ptr is None and (out['action'] != 'alloc' or not out['has_types']):
